@@ -7,12 +7,14 @@ ID = "C13"
 MODULE = "DrandProofs.C13"
 THEOREMS = ["Drand.Persist." + t for t in [
     "tie_executeAndFinishDKG", "tie_onDKGCompleted", "tie_transitionToNext", "tie_joinNetwork", "tie_leaveNetwork",
-    "tie_storeDKGOutput", "tie_saveGroup", "tie_saveShare", "tie_reset", "tie_keySave", "tie_createSecureFile",
+    "tie_storeDKGOutput", "tie_saveGroup", "tie_saveShare", "tie_reset", "tie_keySaveVariant", "tie_keySave", "tie_createSecureFile",
     "tie_dkgSaveFinished", "tie_dkgSaveCurrent", "tie_chainPut", "tie_callbackStorePut", "tie_bpLoad",
     "tie_loadBeaconFromStore", "tie_newHandler", "tie_boltOpen",
     "crashImages_after", "crashImages_during",
     "c13_chain_prefix", "c13_chain_gapfree", "c13_served_stored", "c13_dkgdb_whole", "c13_staged_keeps_finished",
-    "c13_files_one_epoch_exact", "c13_files_one_epoch_partial",
+    "c13_save_atomic", "c13_no_torn_file", "c13_no_startup_panic_atomic", "c13_no_truncated_accepted_atomic",
+    "c13_no_torn_file_code", "c13_no_torn_file_counterexample_inplace",
+    "c13_files_one_epoch_exact", "c13_files_one_epoch_partial", "c13_remaining_windows_atomic",
     "c13_window_counterexample_db_ahead", "c13_window_counterexample_first_dkg", "c13_window_counterexample_torn_group",
     "c13_window_counterexample_group_ahead_of_share", "c13_window_counterexample_torn_share",
     "c13_eviction_exact", "c13_eviction_partial", "c13_window_counterexample_leave",
@@ -23,8 +25,13 @@ TRUSTED = ["Lean 4 kernel; axioms per theorem under coverage.axioms",
            "fs.CreateSecureFile, dkg BoltStore.SaveFinished/save/SaveCurrent, boltdb Put (both), BeaconProcess.Load, "
            "LoadBeaconFromStore, callbackStore.Put, NewHandler, bolt.Open options — regenerated every run, tied by rfl theorems tie_*",
            "harness engine 'crash': real calls on a real directory; crash points reconstructed from the inotify event stream of the "
-           "groups folder and from bbolt's transaction counter; the image 'one commit back' is obtained by invalidating the newest "
+           "groups folder (the file-write protocol is observed, not assumed: create/truncate + modify on the target = written in place, "
+           "torn prefixes of the target are crash images; create + modify on a sibling followed by a rename onto the target = replaced "
+           "atomically, torn prefixes of the sibling are crash images and the target keeps its old content until the rename) and from "
+           "bbolt's transaction counter; the image 'one commit back' is obtained by invalidating the newest "
            "bbolt meta page of a copy (bbolt's two-meta-page design)",
+           "variant of the file-write primitive key.Save (inPlace | atomicRename): the regenerated fact Gen.keySaveVariant (go2lean "
+           "refuses any third shape); the Lean driver follows it, the observed step trace of the real code must agree with it",
            "trusted, not verified: bbolt (a transaction is atomic and durable once Update returned: files are opened with default "
            "options, fsync on commit), the file system (create/truncate, rename, unlink and chmod are atomic; an interrupted write "
            "leaves a prefix), BurntSushi/toml",
@@ -40,7 +47,29 @@ SCHEMES = ["pedersen-bls-chained", "pedersen-bls-unchained", "bls-unchained-on-g
 CALL_OF = {"SaveFinished": "SaveFinished", "SaveCurrent": "SaveCurrent",
            "Create(group)": "SaveGroup", "Write(group)": "SaveGroup",
            "Create(share)": "SaveShare", "Chmod(share)": "SaveShare", "Write(share)": "SaveShare",
-           "Remove(share)": "Reset", "Remove(group)": "Reset"}
+           "Create(group.tmp)": "SaveGroup", "Chmod(group.tmp)": "SaveGroup", "Write(group.tmp)": "SaveGroup", "Rename(group.tmp,group)": "SaveGroup",
+           "Create(share.tmp)": "SaveShare", "Chmod(share.tmp)": "SaveShare", "Write(share.tmp)": "SaveShare", "Rename(share.tmp,share)": "SaveShare",
+           "Remove(share)": "Reset", "Remove(group)": "Reset", "Remove(share.tmp)": "Reset", "Remove(group.tmp)": "Reset"}
+
+# The seven windows that exist only while key.Save writes its target in place (a crash leaves the target truncated or
+# torn). On a tree whose key.Save is the atomicRename variant (regenerated fact Gen.keySaveVariant) they cannot occur;
+# if one is observed there nevertheless it is a VIOLATION, whatever known_findings.json lists (DESIGN 2.5, `fixed:`).
+INPLACE_ONLY = {
+    "dkg-completion:crash-during-SaveGroup:group-unreadable:refused",
+    "dkg-completion:crash-during-SaveGroup:group-decoder-panic:panicked",
+    "dkg-completion:crash-during-SaveGroup:truncated-group-accepted:panicked",
+    "dkg-completion:crash-during-SaveGroup:group-ahead-of-share:started",
+    "dkg-completion:crash-during-SaveGroup:group-ahead-of-share:refused",
+    "dkg-completion:crash-during-SaveShare:share-unreadable:refused",
+    "dkg-completion:crash-during-SaveShare:truncated-share-accepted:started",
+}
+TORN_SYMPTOMS = ("group-unreadable", "group-decoder-panic", "truncated-group-accepted", "share-unreadable", "share-decoder-panic",
+                 "truncated-share-accepted")
+
+
+def is_tmp_step(base):
+    """a step that only touches a temporary sibling: nothing a restart looks at changes"""
+    return ".tmp" in base and not base.startswith("Rename(")
 
 WHAT = {
     "db-ahead-of-key-files": "dkg.db records the new epoch as completed while the key files are still the previous epoch's (or absent)",
@@ -65,11 +94,28 @@ def order_from_gen():
         m = re.search(r"def executeAndFinishDKGPersist : List String := \[(.*?)\]", txt)
         calls = re.findall(r'"([^"]*)"', m.group(1))
         a, b = calls.index("store.SaveFinished"), calls.index("completedDKGs.send")
+        vm = re.search(r'def keySaveVariant : String := "(\w+)"', txt)
+        global SAVE_VARIANT
+        SAVE_VARIANT = vm.group(1) if vm else None
         return ("SaveFinished,send" if a < b else "send,SaveFinished"), "extracted"
     except Exception as e:
         return "SaveFinished,send", f"not extracted ({e})"
     finally:
         shutil.rmtree(tmp, ignore_errors=True)
+
+
+SAVE_VARIANT = None  # "inPlace" | "atomicRename" | None (translator refused the source): set by order_from_gen()
+
+
+def observed_variant(trace):
+    """which file-write protocol the real code was SEEN to use in one completion (from the inotify step trace)"""
+    renames = [t for t in trace if t.startswith("Rename(") and ".tmp," in t]
+    inplace = [t for t in trace if t in ("Write(group)", "Write(share)")]
+    if renames and not inplace:
+        return "atomicRename"
+    if inplace and not renames:
+        return "inPlace"
+    return "mixed" if renames or inplace else None
 
 
 # ------------------------------------------------------------------------------------------------
@@ -106,6 +152,8 @@ def parse_cuts(line):
 
 
 def torn_class(label, rec, new_epoch):
+    if ".tmp)" in label:
+        return "tmp"  # the file being written is a temporary sibling: no loader reads it
     which = "g" if "(group)" in label else "s"
     v = rec.get(which, "?")
     if v == "err":
@@ -187,6 +235,16 @@ def symptom_files(rec):
 
 def window(label, trace, torn):
     base = label.split("@")[0]
+    if is_tmp_step(base):
+        # creating / writing / tearing a temporary sibling changes nothing a restart looks at: the crash point belongs to
+        # the window opened by the last step that did (the rename is what takes effect)
+        if base in trace:
+            i = len(trace) - 1 - trace[::-1].index(base)
+            prev = [t for t in trace[:i] if not is_tmp_step(t)]
+        else:
+            prev = []
+        label, base, torn = (prev[-1] if prev else "start"), (prev[-1] if prev else "start"), False
+    trace = [t for t in trace if not is_tmp_step(t)]
     call = CALL_OF.get(base, base)
     if torn:
         return f"during-{call}"
@@ -232,6 +290,17 @@ def scenario_first_evict(scheme, n, per, seed):
             f"dkg evict {others} {max(2, (n - 1) // 2 + 1)}", "load"]
 
 
+def scenario_stray(scheme, n, per, seed):
+    """stale temporary files (what a run that died inside a Save leaves behind) before loads, restarts, a resharing and
+    an eviction: nothing may load them, a later Save must replace them"""
+    alln = ",".join(str(i) for i in range(n))
+    others = ",".join(str(i) for i in range(1, n))
+    thr = n // 2 + 1
+    return [f"init {scheme} {n} {per} {seed}", "staged executing", f"dkg first {alln} {thr}", "stray group", "stray share", "load",
+            "restart", "beacon 1", "staged executing", f"dkg stay {alln} {thr}", "load", "restart", "stray share", "stray group",
+            "load", f"dkg evict {others} {max(2, (n - 1) // 2 + 1)}", "load"]
+
+
 def scenario_random(rng, length):
     n = rng.range(3, 6)
     scheme = rng.choice(SCHEMES)
@@ -248,8 +317,10 @@ def scenario_random(rng, length):
             ops.append(f"beacon {rng.range(1, 3)}")
         elif k < 40:
             ops.append("staged " + rng.choice(["proposed", "accepted", "executing", "failed", "aborted"]))
-        elif k < 48:
+        elif k < 46:
             ops.append("load")
+        elif k < 48:
+            ops.append("stray " + rng.choice(["group", "share"]))
         elif k < 54 and (member or not have_epoch):
             ops.append("restart")
         elif k < 80:
@@ -315,6 +386,10 @@ def evaluate(ops, outs, order, res, stats, ctx, scenario_id):
             tr = Tracker()
             if out != "ok":
                 problem("init:fresh-node-does-not-start", i, f"a fresh node directory does not start: {out}", [out])
+            continue
+        if f[0] == "stray":
+            if out not in ("ok", "no-node"):
+                problem("harness:stray:unexpected-answer", i, f"could not plant a stale temporary file: {out}", [out])
             continue
         if f[0] == "restart":
             stats["restarts"] += 1
@@ -390,9 +465,16 @@ def evaluate(ops, outs, order, res, stats, ctx, scenario_id):
             if not hm:
                 problem("dkg:unparsable", i, hdr[:200], [out[:300]])
                 break
-            tx, trace = int(hm.group(1)), hm.group(2).split(",")
+            tx, trace = int(hm.group(1)), re.findall(r"[^,(]+(?:\([^)]*\))?", hm.group(2))  # "Rename(a,b)" is one step
             script = "dkg-eviction" if kind == "evict" else "dkg-completion"
             stats["traces"][",".join(trace)] = stats["traces"].get(",".join(trace), 0) + 1
+            ov = observed_variant(trace)
+            if ov is not None:
+                stats["observed_variants"][ov] = stats["observed_variants"].get(ov, 0) + 1
+                if SAVE_VARIANT is not None and ov != SAVE_VARIANT:
+                    problem(f"key-save-protocol:observed-{ov}-source-says-{SAVE_VARIANT}", i,
+                            f"the real key store was seen to write its files with protocol '{ov}' (steps {','.join(trace)}) while the "
+                            f"extractor classifies key.Save as '{SAVE_VARIANT}'", [hdr])
             old_fin = cuts[0][1].get("fin") if cuts else None
             prev_whole = None
             for label, rec in cuts:
@@ -404,7 +486,7 @@ def evaluate(ops, outs, order, res, stats, ctx, scenario_id):
                 stats["distinct"].add((kind, tr.member[e], old_fin, base, torn, rec_str(rec)))
                 if torn:
                     cl = torn_class(label, rec, e)
-                    key = ("group" if "(group)" in label else "share") + ":" + cl
+                    key = ("group" if "(group" in label else "share") + ":" + cl
                     stats["torn"][key] = stats["torn"].get(key, 0) + 1
                 if label == "SaveFinished~rollback":
                     # machinery check: one commit back is the image before the call
@@ -433,11 +515,22 @@ def evaluate(ops, outs, order, res, stats, ctx, scenario_id):
     return problems
 
 
+def report(res, sig, replay):
+    """known-finding filter, keyed on the variant of key.Save the tree under test has: a window of the in-place variant
+    (torn / truncated / unreadable key file) observed on a tree whose Save replaces files atomically is a VIOLATION even
+    though known_findings.json still lists it for trees that write in place"""
+    if SAVE_VARIANT == "atomicRename" and (sig in INPLACE_ONLY or any(t in sig.split(":") for t in TORN_SYMPTOMS)):
+        res.add_violation(dict(replay, signature=sig, note="key.Save is the atomicRename variant on this tree (Gen.keySaveVariant): a crash "
+                               "must leave every key file complete (old or new) — c13_no_torn_file; this image refutes it"))
+        return True
+    return res.report(sig, replay)
+
+
 def minimise(ops):
     """keep the last init and, after it, only what creates state (DKG and beacon ops) plus the failing op"""
     start = max(i for i, o in enumerate(ops) if o.startswith("init"))
     ops = ops[start:]
-    keep = [ops[0]] + [o for o in ops[1:-1] if o.startswith("dkg") or o.startswith("beacon")] + ([ops[-1]] if len(ops) > 1 else [])
+    keep = [ops[0]] + [o for o in ops[1:-1] if o.startswith("dkg") or o.startswith("beacon") or o.startswith("stray")] + ([ops[-1]] if len(ops) > 1 else [])
     return keep
 
 
@@ -470,6 +563,8 @@ def model_compare(ops, impl, model, member_of):
                 for l, r in cuts_a:
                     if "@" in l:
                         cl = torn_class(l, r, last_epoch)
+                        if cl == "tmp":
+                            cl = "bad"  # a torn temporary file: the model's four images coincide (nobody loads it)
                         want = table.get(l.split("@")[0] + "@" + cl)
                         if want != rec_str(r):
                             return agree, i, [l + ";" + rec_str(r)], [f"{l.split('@')[0]}@{cl};{want}"]
@@ -514,12 +609,12 @@ def replay_file(ctx, res, path):
     ops = rep["ops"]
     mode = (rep.get("harness_args") or ["crash", "quick"])[1]
     (impl, model), = run_scenarios([ops], mode, ctx, workers=1)
-    stats = {"evaluations": 0, "ops": {}, "cuts": {}, "torn": {}, "loads": {}, "traces": {}, "restarts": 0, "distinct": set()}
+    stats = {"evaluations": 0, "ops": {}, "cuts": {}, "torn": {}, "loads": {}, "traces": {}, "restarts": 0, "distinct": set(), "observed_variants": {}}
     seen = set()
     for sig, replay in evaluate(ops, impl, None, res, stats, ctx, "replay:" + os.path.basename(path)):
         if sig not in seen:
             seen.add(sig)
-            res.report(sig, dict(replay, harness_args=["crash", mode]))
+            report(res, sig, dict(replay, harness_args=["crash", mode]))
     res.cov["evaluations"] = stats["evaluations"]
     res.cov["distinct_nontrivial"] = len(stats["distinct"])
     res.cov["rule"] = "replay of " + path
@@ -539,6 +634,7 @@ def explore_tier(ctx, res, tier):
         scens.append(scenario_fixed(sch, 4 + (k + seed) % 3, 30, 1000 * seed + k)); names.append(f"fixed:{sch}")
     scens.append(scenario_join_evict(SCHEMES[(seed + 1) % 5], 4, 30, 77 * seed)); names.append("join-evict")
     scens.append(scenario_first_evict(SCHEMES[(seed + 2) % 5], 5, 30, 78 * seed)); names.append("first-evict")
+    scens.append(scenario_stray(SCHEMES[(seed + 3) % 5], 4, 30, 79 * seed)); names.append("stray-tmp")
     nrand = 4 if tier == "quick" else 60
     for k in range(nrand):
         scens.append(scenario_random(rng.fork(f"rand{k}"), 10 if tier == "quick" else 16)); names.append(f"random:{k}")
@@ -552,7 +648,7 @@ def explore_tier(ctx, res, tier):
         results = run_scenarios(scens[:ncorpus], "all", ctx, workers=12) + run_scenarios(scens[ncorpus:], "quick", ctx, workers=12)
     else:
         results = run_scenarios(scens, "quick", ctx, workers=12)
-    stats = {"evaluations": 0, "ops": {}, "cuts": {}, "torn": {}, "loads": {}, "traces": {}, "restarts": 0, "distinct": set()}
+    stats = {"evaluations": 0, "ops": {}, "cuts": {}, "torn": {}, "loads": {}, "traces": {}, "restarts": 0, "distinct": set(), "observed_variants": {}}
     validated = 0
     reported = set()
     diverged = False
@@ -564,8 +660,7 @@ def explore_tier(ctx, res, tier):
             reported.add(sig)
             what = None
             parts = sig.split(":")
-            res_known_before = len(res.known)
-            res.report(sig, dict(replay, harness_args=["crash", mode]))
+            report(res, sig, dict(replay, harness_args=["crash", mode]))
         if model is not None and not diverged:
             agree, at, obs, exp = model_compare(ops, impl, model, None)
             validated += agree
@@ -579,14 +674,17 @@ def explore_tier(ctx, res, tier):
     res.cov["distinct_nontrivial"] = len(stats["distinct"])
     res.cov["traces_validated_against_impl"] = validated
     res.cov["rule"] = ("scripted histories on one real node directory per scenario (fixed: first DKG → beacons → reshare(stay) → restart → failed DKG → left; "
-                       "join → evicted; first → evicted; seeded random walks over init/staged/dkg first|join|stay|evict|skip/beacon/load/restart, 3–6 nodes, 5 schemes); "
-                       "for every persistence step observed (inotify events of the groups folder, bbolt commit counter) the directory image before, after and — for a file "
-                       "written in place — with the file cut at every line boundary, mid-line, 1, ½, len−1 (quick) or every byte offset (thorough, corpus scenarios) is "
+                       "join → evicted; first → evicted; stale temporary files (op stray: a long undecodable 0644 <file>.tmp, as a run that died inside a Save leaves) before loads, "
+                       "restarts, a resharing and an eviction; seeded random walks over init/staged/dkg first|join|stay|evict|skip/beacon/load/restart/stray, 3–6 nodes, 5 schemes); "
+                       "for every persistence step observed (inotify events of the groups folder, bbolt commit counter) the directory image before, after and — for the file "
+                       "being written, be it the key file itself (written in place) or the temporary sibling that is renamed onto it afterwards (the protocol is "
+                       "observed, not assumed) — with that file cut at every line boundary, mid-line, 1, ½, len−1 (quick) or every byte offset (thorough, corpus scenarios) is "
                        "materialised and the real LoadBeaconFromStore + raw loaders run on it. evaluations = crash images recovered; "
                        "non-trivial = distinct (DKG kind, membership, previous completed epoch, step, torn?, recovered record)")
     res.cov["distribution"] = {"ops_by_kind": stats["ops"], "images_by_step": stats["cuts"], "torn_prefix_classes": stats["torn"],
                                "startup_outcomes": stats["loads"], "observed_step_traces": stats["traces"], "restarts": stats["restarts"],
-                               "handover_order_from_source": order, "handover_order_source": order_src, "scenarios": len(scens)}
+                               "handover_order_from_source": order, "handover_order_source": order_src, "scenarios": len(scens),
+                               "key_save_variant_from_source": SAVE_VARIANT, "key_save_protocol_observed": stats["observed_variants"]}
     res.cov["samples"] = []
     for name, ops, (impl, model) in list(zip(names, scens, results))[:3]:
         for op, out in zip(ops, impl):
